@@ -90,6 +90,7 @@ class BaseFunctorWorker(BaseProcess, Generic[T, R]):
             self.begin()
             self.begin_finished.set()
 
+            retirement_announced = False
             while self.max_chunks_per_worker > 0:
                 q_item = self.work_queue.get()
 
@@ -100,15 +101,21 @@ class BaseFunctorWorker(BaseProcess, Generic[T, R]):
                 i, data_list = q_item
 
                 res = (i, [self(x) for x in data_list])
+
+                self.max_chunks_per_worker -= 1
+                if self.max_chunks_per_worker <= 0 and self.replace_queue is not None:
+                    # the retirement is announced before the last result is delivered: the consumer may finish the call
+                    # and stop the replace thread as soon as it has that result, and the notice must be in the queue by then
+                    self.replace_queue.put(self.wid)
+                    retirement_announced = True
+
                 try:
                     with self.results_queue_lock:
                         self.results_queue.put(res, block=False)
                 except queue.Full:
                     self.results_queue.put(res)
-
-                self.max_chunks_per_worker -= 1
             else:
-                if self.replace_queue is not None:
+                if self.replace_queue is not None and not retirement_announced:
                     self.replace_queue.put(self.wid)
 
         finally:
@@ -474,9 +481,15 @@ class FactoryFunctorPool(FunctorPool):
         workers = [workers_factory.create() for _ in range(workers)]
 
         self._workers_factory = workers_factory
-        self._replace_queue = context.Queue()
+        self._replace_queue = None
 
         super().__init__(workers, context, work_queue_maxsize, results_queue_maxsize, verbose, join_timeout)
+
+        # a manager queue (a put has arrived when it returns): a retirement notice is then always in front of the stop token
+        # that the consumer sends after it has got the retiring worker's last result
+        self._replace_queue = self._manager.Queue()
+        for p in self.procs:
+            p.replace_queue = self._replace_queue
 
     def _init_process(self, p: BaseFunctorWorker):
         super()._init_process(p)
